@@ -623,7 +623,9 @@ func (n *Nodis) Persist(key string) int64 {
 
 func (n *Nodis) signalModifiedKey(key string, meta *metadata) {
 	meta.state |= KeyStateModified
-	n.store.watchMu.RLock()
+	// the connections' flag maps are written here: exclusive, two writers may signal the same
+	// connection at the same time
+	n.store.watchMu.Lock()
 	clients, ok := n.store.watchedKeys.Get(key)
 	if ok {
 		clients.ForRange(func(c *redis.Conn) bool {
@@ -631,5 +633,5 @@ func (n *Nodis) signalModifiedKey(key string, meta *metadata) {
 			return true
 		})
 	}
-	n.store.watchMu.RUnlock()
+	n.store.watchMu.Unlock()
 }
